@@ -68,6 +68,34 @@ theorem index_adds_no_tail_dependence (be : Bool) (maxlen : Nat) (t : Tree) (S :
   rw [Props.lookup_eq_scan be maxlen t S hc dec xd hacc, Props.lookup_eq_scan be maxlen t S hc dec xd hacc]
   simpa using scan_eq_of_dec_eq r S dec xd b1 b2 hsame fuel 0 st
 
+/-- ISAs without prefix specifications (all fixed-width RISC ISAs shipped: mips, sparc, ppc32, armv8,
+    rv32i/rv64i, sh2, tricore …): if every specification gives the same outcome on two inputs — which
+    `fixed_spec_ignores_tail` guarantees for inputs that agree on the first `size/8` bytes — the call
+    returns the same result. No assumption on other offsets is needed because nothing recurses. -/
+theorem no_prefix_isa_determined (be : Bool) (maxlen : Nat) (t : Tree) (S : List SpecK)
+    (hc : checkTree be maxlen t S = true) (hnp : ∀ s ∈ S, s.pfx ≠ .prefix) {I : Type}
+    (dec : Option I → List Nat → SpecK → Out I) (xd : I → Option I)
+    (hacc : ∀ st bytes s, s ∈ S → dec st bytes s ≠ .reject →
+              key be maxlen bytes &&& s.amask be maxlen = s.afix be maxlen)
+    (b1 b2 : List Nat) (st : Option I)
+    (hsame : ∀ s, s ∈ S → dec st b1 s = dec st b2 s)
+    (r : Bool) (fuel : Nat) :
+    call r (fun bs => route t (key be maxlen bs)) dec xd fuel st b1
+      = call r (fun bs => route t (key be maxlen bs)) dec xd fuel st b2 := by
+  rw [Props.lookup_eq_scan be maxlen t S hc dec xd hacc, Props.lookup_eq_scan be maxlen t S hc dec xd hacc]
+  cases fuel with
+  | zero => rfl
+  | succ n =>
+    simp only [call]
+    rw [firstHit_congr _ _ S hsame]
+    split <;> try rfl
+    rename_i s i hfh
+    have hs := (firstHit_some _ _ _ _ hfh).2
+    split
+    · rename_i hp; exact absurd hp (hnp s hs)
+    · rfl
+    · rfl
+
 /-- Per-spec premise of the previous theorem for fixed-length specifications: `ispec.decode`'s
     acceptance and delivered fields do not depend on bytes after the spec's own length
     (restated from C03). Variable-length tails (`(*)` fields handed to hooks that parse ModRM/SIB,
